@@ -104,10 +104,17 @@ def run_shard(spec):
     r = random.Random(spec["seed"])
     os.chdir(os.environ.get("VMON_SCRATCH", "/tmp"))
 
-    def nbmerge(cfg):
+    from .. import env
+    paths = env.make_path_variants(os.path.join(os.environ.get("VMON_SCRATCH", "/tmp"), "paths-%s" % spec.get("shard", 0)))
+
+    def nbmerge(cfg, variant="full"):
         def f(b, l, rr):
             nbd.hygiene()
-            return nbd.merge_notebooks(to_node(b), to_node(l), to_node(rr), merge_args(cfg))
+            os.environ["PATH"] = paths[variant]
+            try:
+                return nbd.merge_notebooks(to_node(b), to_node(l), to_node(rr), merge_args(cfg))
+            finally:
+                os.environ["PATH"] = paths["full"]
         return f
 
     def gmerge(b, l, rr):
@@ -124,7 +131,7 @@ def run_shard(spec):
             if c.get("generic"):
                 check_symmetry(col, gmerge, c["b"], c["l"], c["r"], "generic", "generic", c)
             else:
-                check_symmetry(col, nbmerge(c["config"]), c["b"], c["l"], c["r"], "notebook", str(c["config"]), c)
+                check_symmetry(col, nbmerge(c["config"], c.get("path_variant", "full")), c["b"], c["l"], c["r"], "notebook", str(c["config"]), c)
         return col.result()
 
     i, n = spec["i"], spec["n"]
@@ -153,11 +160,27 @@ def run_shard(spec):
         cls, b, l, rm, info, waste = valid_triple(gen)
         if cls is None:
             continue
-        excl = cls in ("both_insert_similar", "both_insert_dissimilar", "insert_near", "both_append_outputs")
+        excl = cls in ("both_insert_similar", "both_insert_dissimilar", "insert_near", "both_append_outputs", "both_insert_lists")
+        if k % 5 == 0 and b["cells"]:
+            # both sides edit DIFFERENT lines of one cell, the final newline differs between the sides: clean text merge
+            # whose outcome must not depend on the roles (nor on the helper that renders it)
+            import copy as _copy
+            lines = ["disjoint edit line %d value %d" % (j, r.randrange(1000)) for j in range(6)]
+            bb, ll_, rr_ = _copy.deepcopy(b), _copy.deepcopy(b), _copy.deepcopy(b)
+            fin = [r.choice(["", "\n"]) for _ in range(3)]
+            la, ra = list(lines), list(lines)
+            la[1] += " # local"
+            ra[4] += " # remote"
+            bb["cells"][0]["source"] = "\n".join(lines) + fin[0]
+            ll_["cells"][0]["source"] = "\n".join(la) + fin[1]
+            rr_["cells"][0]["source"] = "\n".join(ra) + fin[2]
+            b, l, rm, cls, excl = bb, ll_, rr_, "disjoint_lines_one_cell", False
+        variant = ("full", "diffonly", "bare")[k % 3]
         for cfg in base_cfgs[:2]:
             col.eval()
-            check_symmetry(col, nbmerge(cfg), b, l, rm, "notebook", cfg["merge"],
-                           {"b": b, "l": l, "r": rm, "config": cfg, "class": cls, "info": info}, gen_excluded=excl)
+            col.count("symmetry_renderer:" + variant)
+            check_symmetry(col, nbmerge(cfg, variant), b, l, rm, "notebook", cfg["merge"] + "@" + variant,
+                           {"b": b, "l": l, "r": rm, "config": cfg, "class": cls, "info": info, "path_variant": variant}, gen_excluded=excl)
     # ---- generic: exhaustive
     alpha = [0, 1, "a", [0], {"k": 0}]
     spaces = [("lists", list(G.lists_upto(2, alpha))), ("strings", list(G.strings_upto(3, ["a", "b", "\n"]))),
